@@ -1267,6 +1267,7 @@ func (c *Ctx) loopHeader(fr *Frame, li *loopInfo, b, pred *ssa.BasicBlock, st *S
 			st.assume(se2.assumeF(cl.E))
 		}
 		st.active[key] = 1
+		st.iterTop = st.heapTop // everything allocated from here on is allocated in this iteration
 		return true
 	}
 	// back edge: invariant preserved. The phi registers are re-bound only for the evaluation of the
